@@ -270,8 +270,10 @@ defvjp(
 
 defvjp(
     anp._astype,
-    lambda ans, A, dtype, order="K", casting="unsafe", subok=True, copy=True: lambda g: anp._astype(
-        g, A.dtype
+    lambda ans, A, dtype, order="K", casting="unsafe", subok=True, copy=True: (
+        (lambda g: anp._astype(g, A.dtype))
+        if onp.issubdtype(anp.metadata(ans)[2], onp.inexact)
+        else (lambda g: vspace(A).zeros())  # cast to an integer / boolean dtype: piecewise constant
     ),
 )
 
@@ -965,10 +967,13 @@ defvjp_argnum(anp.array_from_args, array_from_args_gradmaker)
 def array_from_scalar_or_array_gradmaker(ans, array_args, array_kwargs, scarray):
     ndmin = array_kwargs.get("ndmin", 0)
     scarray_ndim = anp.ndim(scarray)
+    if not onp.issubdtype(anp.metadata(ans)[2], onp.inexact):
+        # cast to an integer / boolean dtype: piecewise constant
+        return lambda g: vspace(scarray).zeros()
     if ndmin > scarray_ndim:
-        return lambda g: anp.squeeze(g, axis=tuple(range(ndmin - scarray_ndim)))
+        return lambda g: match_complex(scarray, anp.squeeze(g, axis=tuple(range(ndmin - scarray_ndim))))
     else:
-        return lambda g: g
+        return lambda g: match_complex(scarray, g)
 
 
 defvjp(anp._array_from_scalar_or_array, array_from_scalar_or_array_gradmaker, argnums=(2, 3))
